@@ -40,6 +40,7 @@ MEAS = {
     "expval Hamiltonian(2 coeffs), probs": (2, lambda v: [qp.expval(qp.Hamiltonian([v[0], v[1]], [qp.PauliZ(0), qp.PauliX(1)])), qp.probs(wires=[2])]),
     "var s_prod, expval Hermitian": (2, lambda v: [qp.var(qp.s_prod(v[0], qp.PauliY(1))), qp.expval(qp.Hermitian(np.array([[v[1], 0.0], [0.0, -v[1]]]), wires=0))]),
 }
+MEAS["probs, expval s_prod(X), expval s_prod(Y)"] = (2, lambda v: [qp.probs(wires=[2]), qp.expval(qp.s_prod(v[0], qp.PauliX(0))), qp.expval(qp.s_prod(v[1], qp.PauliY(1)))])
 MK = list(MEAS)
 
 
@@ -162,6 +163,23 @@ def check(op_codes, m_code, tmask, bind_order, new_len):
     except Exception as e:  # noqa: BLE001
         if P:
             probs.append(f"binding the current parameters raised {e!r}")
+    # copy(trainable_params=...) and wire re-labelling keep / set exactly the requested trainable set (the empty set included)
+    Tv = [i for i in T if i < P]
+    try:
+        tape.trainable_params = Tv
+        c2 = tape.copy(trainable_params=[i for i in range(P) if i not in Tv])
+        if list(c2.trainable_params) != [i for i in range(P) if i not in Tv]:
+            probs.append(f"copy(trainable_params={[i for i in range(P) if i not in Tv]}) of a circuit with trainable {Tv} has trainable_params {c2.trainable_params}")
+        c3 = tape.copy(trainable_params=[])
+        if list(c3.trainable_params) != []:
+            probs.append(f"copy(trainable_params=[]) of a circuit with trainable {Tv} has trainable_params {c3.trainable_params}")
+        (mapped,), _ = qp.map_wires(tape, {0: "a", 1: "b", 2: "c"})
+        if list(mapped.trainable_params) != Tv:
+            probs.append(f"qp.map_wires changed trainable_params {Tv} -> {mapped.trainable_params}")
+        if list(tape.copy().trainable_params) != Tv:
+            probs.append(f"copy() changed trainable_params {Tv} -> {tape.copy().trainable_params}")
+    except Exception as e:  # noqa: BLE001
+        probs.append(f"copy / map_wires with trainable {Tv} raised {e!r}")
     # copies are independent
     for kw in ({}, {"copy_operations": True}):
         c = tape.copy(**kw)
